@@ -168,6 +168,11 @@ pub fn reach(verif_dir: &str) -> i32 {
         let pf = c["perturbations_fired"].as_object().map(|m| m.len()).unwrap_or(0) as f64;
         probe("C12.perturbation_kinds_fired", pf, 3.0);
         probe("C12.clock_calls (expected 0 today)", -num(&c["clock_calls"]), 0.0);
+        probe("C12.programs_run_through_transpile_dir", num(&c["programs_run_through_transpile_dir"]), 20.0);
+        probe("C12.jobs_repeating_an_earlier_job_of_their_thread", num(&c["jobs_repeating_an_earlier_job_of_their_thread"]), 100.0 * k);
+        probe("C12.edited_versions_run_before_their_program_on_the_same_thread", num(&c["edited_versions_run_before_their_program_on_the_same_thread"]), 100.0 * k);
+        probe("C12.scenarios_with_environment_fuzzing", num(&c["scenarios_with_environment_fuzzing"]), 50.0 * k);
+        probe("C12.scheduling_points_from_log_statements", num(&c["scheduling_points_from_log_statements"]), 1000.0 * k);
     } else {
         println!("REACH-WARNING no C12 evidence");
         warnings.set(warnings.get() + 1);
@@ -183,6 +188,11 @@ pub fn reach(verif_dir: &str) -> i32 {
         probe("C13.after_failed_run.prefix_of_expected", num(&c["after_failed_run"]["prefix_of_expected"]), 5.0);
         probe("C13.overwrote_longer_file", num(&c["overwrote_longer_file"]), 10.0 * k);
         probe("C13.cli_runs", num(&c["cli_runs"]), 20.0 * k);
+        probe("C13.cli_runs_with_unwritable_stderr", num(&c["cli_runs_with_unwritable_stderr"]), 5.0 * k);
+        probe("C13.sessions_started", num(&c["sessions_started"]), 50.0 * k);
+        probe("C13.steps_run_in_an_already_used_process", num(&c["steps_run_in_an_already_used_process"]), 200.0 * k);
+        probe("C13.source_paths_materialised_as_symlinks", num(&c["source_paths_materialised_as_symlinks"]), 20.0 * k);
+        probe("C13.single_faulty_by_kind.encoding", num(&c["single_faulty_by_kind"]["encoding"]), 2.0);
         probe("C13.histories_with_ok_and_err_steps", num(&c["histories_with_ok_and_err_steps"]), 30.0 * k);
         for kind in ["lexical", "syntax", "type", "crossfile_type"] {
             probe(&format!("C13.single_faulty_by_kind.{kind}"), num(&c["single_faulty_by_kind"][kind]), 3.0);
